@@ -78,7 +78,7 @@ func (s *Sim) FSData(path string) ([]byte, bool) {
 	if f == nil {
 		return nil, false
 	}
-	return append([]byte(nil), f.ino.data...), true
+	return rawCopy(f.ino.data), true
 }
 
 //go:norace
@@ -109,7 +109,10 @@ func (s *Sim) push(ino *inode, op fsnotify.Op, removeWatch bool) {
 				w.queue = append(w.queue, ev)
 			}
 			if removeWatch {
-				w.watches = append(w.watches[:i], w.watches[i+1:]...)
+				for zz := i; zz+1 < len(w.watches); zz++ {
+					w.watches[zz] = w.watches[zz+1]
+				}
+				w.watches = w.watches[:len(w.watches)-1]
 				i--
 				Probe(PWatchLost)
 			}
@@ -123,11 +126,11 @@ func (s *Sim) push(ino *inode, op fsnotify.Op, removeWatch bool) {
 //go:norace
 func (s *Sim) FSCreate(path string, data []byte) {
 	if f := s.lookup(path); f != nil {
-		f.ino.data = append([]byte(nil), data...)
+		f.ino.data = rawCopy(data)
 		return
 	}
 	nextIno++
-	s.files = append(s.files, &simFile{path: path, ino: &inode{id: nextIno, data: append([]byte(nil), data...), nlink: 1}})
+	s.files = append(s.files, &simFile{path: path, ino: &inode{id: nextIno, data: rawCopy(data), nlink: 1}})
 }
 
 // FSTruncate is open(O_TRUNC) on an existing file.
@@ -151,7 +154,7 @@ func (s *Sim) FSAppend(path string, chunk []byte) {
 	if f == nil {
 		return
 	}
-	f.ino.data = append(f.ino.data, chunk...)
+	f.ino.data = rawAppend(f.ino.data, chunk)
 	s.push(f.ino, fsnotify.Write, false)
 }
 
@@ -170,7 +173,7 @@ func (s *Sim) FSChmod(path string) {
 func (s *Sim) FSRenameOver(path string, data []byte) {
 	f := s.lookup(path)
 	nextIno++
-	n := &inode{id: nextIno, data: append([]byte(nil), data...), nlink: 1}
+	n := &inode{id: nextIno, data: rawCopy(data), nlink: 1}
 	if f == nil {
 		s.files = append(s.files, &simFile{path: path, ino: n})
 		return
@@ -189,7 +192,10 @@ func (s *Sim) FSRenameOver(path string, data []byte) {
 func (s *Sim) FSUnlink(path string) {
 	for i, f := range s.files {
 		if f.path == path {
-			s.files = append(s.files[:i], s.files[i+1:]...)
+			for zz := i; zz+1 < len(s.files); zz++ {
+				s.files[zz] = s.files[zz+1]
+			}
+			s.files = s.files[:len(s.files)-1]
 			f.ino.nlink--
 			s.push(f.ino, fsnotify.Chmod, false)
 			s.push(f.ino, fsnotify.Remove, true)
@@ -253,13 +259,13 @@ func ReadFile(name string) ([]byte, error) {
 		if f == nil {
 			err = &os.PathError{Op: "open", Path: name, Err: syscall.ENOENT}
 		} else {
-			data = append([]byte(nil), f.ino.data...)
+			data = rawCopy(f.ino.data)
 		}
 	}
 	if err != nil {
 		rec.Err = err.Error()
 	} else {
-		rec.Data = append([]byte(nil), data...)
+		rec.Data = rawCopy(data)
 	}
 	s.ReadFileLog = append(s.ReadFileLog, rec)
 	if s.cur != nil {
@@ -333,7 +339,10 @@ func (w *Watcher) Remove(name string) error {
 	}
 	for i, x := range w.watches {
 		if x.path == name {
-			w.watches = append(w.watches[:i], w.watches[i+1:]...)
+			for zz := i; zz+1 < len(w.watches); zz++ {
+				w.watches[zz] = w.watches[zz+1]
+			}
+			w.watches = w.watches[:len(w.watches)-1]
 			return nil
 		}
 	}
